@@ -8,7 +8,9 @@ package c13
 // (GORACE log_path, halt_on_error=0, exitcode=0); after every case the harness
 // reads what was appended to that file, parses the reports and turns each new
 // one into a violation whose signature is the unordered pair of the top csvq
-// source locations of the two conflicting accesses.
+// source locations of the two conflicting accesses, written as
+// file:Function+offset (line offset inside the enclosing function, so that a
+// signature survives edits elsewhere in the file; the message has the lines).
 //
 // Why a worker and not the test process itself: the testing package marks the
 // running (sub)test as failed as soon as the race runtime's error counter
@@ -28,7 +30,6 @@ import (
 	"os/exec"
 	"path/filepath"
 	"regexp"
-	"sort"
 	"strings"
 	"sync"
 	"testing"
@@ -258,6 +259,59 @@ func relLoc(path, line string) (string, bool) {
 	return path + ":" + line, false
 }
 
+// anchor turns "lib/query/x.go:123" into "lib/query/x.go:Func+7" (line offset inside the enclosing
+// top-level function, read from the source tree), so that a signature survives edits elsewhere in
+// the file. Falls back to the line number when the source cannot be read.
+var (
+	funcDecl  = regexp.MustCompile(`^func (?:\(\s*\w*\s*\*?(\w+)[^)]*\)\s*)?(\w+)`)
+	funcIndex = map[string][]funcStart{}
+	funcMu    sync.Mutex
+)
+
+type funcStart struct {
+	line int
+	name string
+}
+
+func anchor(loc string) string {
+	i := strings.LastIndex(loc, ":")
+	if i < 0 || strings.HasPrefix(loc, "/") {
+		return loc
+	}
+	file := loc[:i]
+	var line int
+	if _, err := fmt.Sscanf(loc[i+1:], "%d", &line); err != nil {
+		return loc
+	}
+	funcMu.Lock()
+	defer funcMu.Unlock()
+	idx, ok := funcIndex[file]
+	if !ok {
+		if b, err := os.ReadFile(filepath.Join(run.RepoDir(), file)); err == nil {
+			for n, l := range strings.Split(string(b), "\n") {
+				if m := funcDecl.FindStringSubmatch(l); m != nil {
+					name := m[2]
+					if m[1] != "" {
+						name = m[1] + "." + name
+					}
+					idx = append(idx, funcStart{line: n + 1, name: name})
+				}
+			}
+		}
+		funcIndex[file] = idx
+	}
+	best := -1
+	for k, f := range idx {
+		if f.line <= line {
+			best = k
+		}
+	}
+	if best < 0 {
+		return loc
+	}
+	return fmt.Sprintf("%s:%s+%d", file, idx[best].name, line-idx[best].line)
+}
+
 func parseReports(log string) []raceReport {
 	var out []raceReport
 	for _, block := range strings.Split(log, "==================") {
@@ -297,8 +351,12 @@ func parseReports(log string) []raceReport {
 		for len(locs) < 2 {
 			locs = append(locs, "?")
 		}
-		sort.Strings(locs)
-		out = append(out, raceReport{Sig: "race:" + locs[0] + "|" + locs[1], Locs: [2]string{locs[0], locs[1]}, Text: clipReport(strings.TrimSpace(block))})
+		a0, a1 := anchor(locs[0]), anchor(locs[1])
+		if a1 < a0 {
+			a0, a1 = a1, a0
+			locs[0], locs[1] = locs[1], locs[0]
+		}
+		out = append(out, raceReport{Sig: "race:" + a0 + "|" + a1, Locs: [2]string{locs[0], locs[1]}, Text: clipReport(strings.TrimSpace(block))})
 	}
 	return out
 }
@@ -616,7 +674,7 @@ func avoidNote() string {
 	return fmt.Sprintf("generator keeps away from reported defects while these are true: avoidKnownLoaderPosRace=%v (eval, cancel and sessions then use temporary tables only; the load_* checks always read files), avoidKnownSubqueryFileInfoWrite=%v (statements with a FROM-subquery are the last ones of their program), avoidKnownSharedRandInLockNames=%v (the sessions check reads no files)", avoidKnownLoaderPosRace, avoidKnownSubqueryFileInfoWrite, avoidKnownSharedRandInLockNames)
 }
 
-const commonRule = "tables t1,t2 (160-900 rows: 60% up to 340, 25% up to 500, 15% 640-900; files > 300 records) and t3 (5-40 rows) with columns id,k,g,v,s,d,j computed from a recipe (moduli, NULL period), as temporary tables or files; session with cpu 8-16; statements are executed in a worker process built with -race and every race report of the Go race detector (GORACE log_path) is a violation with signature race:<locA>|<locB> (top csvq frames of the two accesses); non-trivial = query.VerifParallelTasks grew during the statements or a file with >= 2 records was loaded, no unexpected statement error; distinct by (mode, operator labels, formats, failure site:kind, cancel outcome, sessions)"
+const commonRule = "tables t1,t2 (160-900 rows: 60% up to 340, 25% up to 500, 15% 640-900; files > 300 records) and t3 (5-40 rows) with columns id,k,g,v,s,d,j computed from a recipe (moduli, NULL period), as temporary tables or files; session with cpu 8-16; statements are executed in a worker process built with -race and every race report of the Go race detector (GORACE log_path) is a violation with signature race:<locA>|<locB> (top csvq frames of the two accesses as file:Function+line offset); non-trivial = query.VerifParallelTasks grew during the statements or a file with >= 2 records was loaded, no unexpected statement error; distinct by (mode, operator labels, formats, failure site:kind, cancel outcome, sessions)"
 
 var commonAssumptions = []string{
 	"the race detector only sees the happens-before relation of executed interleavings: unsynchronised accesses that execute are reported whatever their timing, code that is not reached is not judged",
@@ -635,31 +693,31 @@ func runCheck(t *testing.T, name string, quick, thorough int, gen func(*rapid.T)
 }
 
 func TestC13Eval(t *testing.T) {
-	runCheck(t, "eval", 260, 5200, genEval,
+	runCheck(t, "eval", 150, 3000, genEval,
 		"1-3 statements: filter, all join kinds (ON/USING/NATURAL/CROSS/LATERAL, outer), GROUP BY + aggregates (incl. LISTAGG, JSON_AGG, MEDIAN, user aggregate) / HAVING, DISTINCT, UNION/EXCEPT/INTERSECT [ALL], ORDER BY + LIMIT/OFFSET/PERCENT/WITH TIES, analytic functions with frames, FROM subqueries, CTE, correlated and scalar subqueries, user functions, regexp/datetime/json functions, variables and flags, INSERT..SELECT/UPDATE/UPDATE..FROM/DELETE/REPLACE/ALTER ADD")
 }
 
 func TestC13LoadText(t *testing.T) {
-	runCheck(t, "load_text", 110, 2200, genLoad([]string{"CSV", "TSV", "LTSV", "FIXED"}),
+	runCheck(t, "load_text", 70, 1400, genLoad([]string{"CSV", "TSV", "LTSV", "FIXED"}),
 		"t1,t2 (and 60% of t3) are CSV/TSV/LTSV/FIXED files written by the harness (88%: 301-900 records, else 2/3/17/160/299/300); 1-2 statements: scans, SELECT *, the same file twice in one query (self join, IN subquery), two files in a set operation, filters/joins/grouping/sorting/analytic functions over the files, DML on CSV/TSV files (not committed)")
 }
 
 func TestC13LoadJSON(t *testing.T) {
-	runCheck(t, "load_json", 90, 1800, genLoad([]string{"JSON", "JSONL"}),
+	runCheck(t, "load_json", 60, 1200, genLoad([]string{"JSON", "JSONL"}),
 		"like load_text with JSON and JSONL files")
 }
 
 func TestC13Error(t *testing.T) {
-	runCheck(t, "error", 200, 4000, genError,
+	runCheck(t, "error", 110, 2200, genError,
 		"one statement that fails while workers run: an expression that divides by zero / takes a modulus by zero / calls a user function that triggers an error exactly at the row with a chosen id inside the range of the 2nd or a later worker (25% at a range boundary; also two failing rows) or fails at every row (unknown column, unknown function, scalar subquery with several rows), placed in WHERE, the select list, a GROUP BY key, an aggregate argument, HAVING, a join condition, ORDER BY, an analytic argument or PARTITION BY, DISTINCT, INSERT..SELECT, UPDATE SET/WHERE, DELETE WHERE; 25% with a normal statement before it")
 }
 
 func TestC13Cancel(t *testing.T) {
-	runCheck(t, "cancel", 160, 3200, genCancel,
+	runCheck(t, "cancel", 80, 1600, genCancel,
 		"1-2 statements whose context is cancelled from another goroutine as soon as the 1st-4th parallel task manager of the program was created (plus 0-2000 scheduler yields); the moment is not an oracle")
 }
 
 func TestC13Sessions(t *testing.T) {
-	runCheck(t, "sessions", 150, 3000, genSessions,
+	runCheck(t, "sessions", 90, 1800, genSessions,
 		"two sessions (own Session, Transaction, Processor and temporary tables; csvq used as a library) run 1-3 statements each at the same time in two goroutines of one process: shared package-level state (goroutine manager, value and buffer pools, caches)")
 }
